@@ -242,6 +242,9 @@ def _quaternion_to_euler(quaternion: torch.Tensor, seq: str, extrinsic: bool):
 
     # Compute angles
     angles_1 = 2 * torch.atan2(torch.hypot(c, d), torch.hypot(a, b))
+    # Check if angles_1 is equal to is 0 (case=1) or pi (case=2), causing a singularity,
+    # i.e. a gimble lock. case=0 is the normal. (To be checked before angles_1 is shifted for Tait-Bryan angles.)
+    case = 1 * (torch.abs(angles_1) <= 1e-7) + 2 * (torch.abs(angles_1 - torch.pi) <= 1e-7)
     half_sum = torch.atan2(b, a)
     half_diff = torch.atan2(d, c)
 
@@ -255,14 +258,12 @@ def _quaternion_to_euler(quaternion: torch.Tensor, seq: str, extrinsic: bool):
         # flip first and last rotation
         angles_2, angles_0 = angles_0, angles_2
 
-    # Check if angles_1 is equal to is 0 (case=1) or pi (case=2), causing a singularity,
-    # i.e. a gimble lock. case=0 is the normal.
-    case = 1 * (torch.abs(angles_1) <= 1e-7) + 2 * (torch.abs(angles_1 - torch.pi) <= 1e-7)
     # if Gimbal lock, sett last angle to 0 and use 2 * half_sum / 2 * half_diff for first angle.
     angles_2 = (case == 0) * angles_2
-    angles_0 = (
-        (case == 0) * angles_0 + (case == 1) * 2 * half_sum + (case == 2) * 2 * half_diff * (-1 if extrinsic else 1)
-    )
+    angles_0_singular = (case == 1) * 2 * half_sum + (case == 2) * 2 * half_diff * (-1 if extrinsic else 1)
+    if not symmetric and not extrinsic:
+        angles_0_singular = angles_0_singular * sign
+    angles_0 = (case == 0) * angles_0 + angles_0_singular
 
     angles = torch.stack((angles_0, angles_1, angles_2), -1)
     angles += (angles < -torch.pi) * 2 * torch.pi
